@@ -30,7 +30,9 @@ func init() {
 		in := append([]byte{}, a[1].B...)
 		y := e.Encode(in)
 		y = append([]byte{}, y...)
-		return append([]Tok{TB(y)}, decObs(e, append([]byte{}, y...))...)
+		out := append([]Tok{TB(y)}, decObs(e, append([]byte{}, y...))...)
+		// the advertised expansion ratio, in parts per million (rounded)
+		return append(out, TW("ratio"), TI(int64(e.Ratio()*1e6+0.5)))
 	})
 	// dec <code> <bytes>  ->  ok <decoded> | err
 	register("dec", func(a []Tok) []Tok {
